@@ -106,7 +106,12 @@ var boundsTemplates = map[string]string{
 	"mutual_ba_zdst": "reflect(%UNIT%).\nreflect(X) :- origin(X).\nreflect(Y) :- src(Y).\norigin(X) :- reflect(X).\ndst(X) :- origin(X), reflect(X).",
 	"selfrec":        "origin(%UNIT%).\norigin(X) :- origin(X), src(X).\norigin(Y) :- src(Y).\ndst(X) :- origin(X).",
 	"chain3":         "aa(%UNIT%).\naa(X) :- cc(X).\nbb(X) :- aa(X).\ncc(X) :- bb(X).\ncc(Y) :- src(Y).\ndst(X) :- aa(X), bb(X), cc(X).",
-	"none":           "",
+	// a (negated) name-prefix test refines a union- or prefix-typed variable
+	"neg_prefix_below": "dst(X) :- src(X), !:match_prefix(X, /foo/a).",
+	"neg_prefix_eq":    "dst(X) :- src(X), !:match_prefix(X, /foo).",
+	"pos_prefix_below": "dst(X) :- src(X), :match_prefix(X, /foo/a).",
+	"neg_prefix_other": "dst(X) :- src(X), !:match_prefix(X, /bar).",
+	"none":             "",
 }
 
 func boundsText(c BCase) string {
